@@ -32,6 +32,7 @@ pub enum Ev {
     Swap { who: usize, pair: usize, offer_first: bool, amount: u128 },
     Loan { vault: usize, amount: u128 },
     Fee { asset: usize, amount: u128 },                 // a plain transfer to the collector
+    Stray { amount: u128 },                             // a plain transfer of the distribution asset to the DISTRIBUTOR (belongs to no epoch)
     Config { admin: bool, active: Option<bool>, rate: Option<u128>, dao: Option<bool> },
     Collect { who: usize, vaults: bool },
     Aggregate { who: usize, vaults: bool },
@@ -98,6 +99,10 @@ fn apply(w: &mut W, t: u64, e: &Ev) -> Outcome<()> {
         Ev::Fee { asset, amount } => {
             let c = w.w.collector.clone();
             run_catch(|| w.w.transfer("donor", c.as_str(), A[*asset], *amount).map(|_| ()), classify)
+        }
+        Ev::Stray { amount } => {
+            let d = w.w.distributor.clone();
+            run_catch(|| w.w.transfer("donor", d.as_str(), A[0], *amount).map(|_| ()), classify)
         }
         Ev::Config { admin, active, rate, dao } => {
             let msg = fc::ExecuteMsg::UpdateConfig { owner: None, pool_router: None, fee_distributor: None, pool_factory: None, vault_factory: None,
@@ -179,9 +184,11 @@ fn snap_obs(s: &Snap) -> Vec<String> {
 fn nz(x: i128) -> u128 { if x < 0 { 0 } else { x as u128 } }
 
 pub struct Exec { pub setup: Setup, pub w: W, pub events: Vec<(u64, Ev)>, pub terms: Vec<String>, pub obs: Vec<String>,
-                  n_epochs: u64, n_swapped: u64, n_taken: u64, n_left: u64 }
+                  n_epochs: u64, n_swapped: u64, n_taken: u64, n_left: u64,
+                  /// what strangers sent straight to the distributor so far: kept apart from the distributor balance the model accounts for
+                  stray: u128 }
 impl Exec {
-    pub fn new(setup: Setup) -> Exec { let w = build(&setup); Exec { setup, w, events: vec![], terms: vec![], obs: vec![], n_epochs: 0, n_swapped: 0, n_taken: 0, n_left: 0 } }
+    pub fn new(setup: Setup) -> Exec { let w = build(&setup); Exec { setup, w, events: vec![], terms: vec![], obs: vec![], n_epochs: 0, n_swapped: 0, n_taken: 0, n_left: 0, stray: 0 } }
     fn replay_json(&self) -> Value {
         json!({"kind": "fee_pipeline_history", "setup": format!("{:?}", self.setup), "assets": A, "pairs": ["uwhale-uusdc", "uwhale-uatom", "uusdc-ubtc"], "vaults": ["uwhale", "uusdc", "ubtc"],
                "events": self.events.iter().map(|(t, e)| json!({"t": t.to_string(), "ev": format!("{:?}", e)})).collect::<Vec<_>>()})
@@ -193,7 +200,7 @@ impl Exec {
         // model term (measured on the probe before the real call)
         let mut probe_step_failed = false;
         let term: Option<String> = match e {
-            Ev::Swap { .. } | Ev::Loan { .. } => None,
+            Ev::Swap { .. } | Ev::Loan { .. } | Ev::Stray { .. } => None,
             Ev::Fee { asset, amount } => Some(format!("PCollect true [({}, {})]", asset, amount)),
             Ev::Config { admin, active, rate, dao } => Some(format!("PConfig {} {} {} {}", coqbool(*admin),
                 active.map(|b| format!("(Some {})", coqbool(b))).unwrap_or("None".into()), rate.map(|r| format!("(Some {})", r)).unwrap_or("None".into()),
@@ -219,19 +226,22 @@ impl Exec {
                 Some(format!("PNewEpoch (mkFeeds {} {} {} {} {})", coqbool(ok1 && ok2), transfers_term(&b0, &b1), transfers_term(&b1, &b2), assets_term(&v1), assets_term(&v2)))
             }
         };
-        let before = snap(&self.w);
+        let mut before = snap(&self.w);
+        before.dist -= self.stray;
         let r = apply(&mut self.w, t, e);
         self.events.push((t, e.clone()));
-        let after = snap(&self.w);
+        let mut after = snap(&self.w);
+        if let (Ev::Stray { amount }, Outcome::Ok(_)) = (e, &r) { self.stray += *amount; }
+        after.dist -= self.stray;
         let replay = self.replay_json();
         let ok = matches!(r, Outcome::Ok(_));
-        let kind = match e { Ev::Swap { .. } => "env:swap", Ev::Loan { .. } => "env:loan", Ev::Fee { .. } => "fee", Ev::Config { .. } => "config", Ev::Collect { .. } => "collect",
+        let kind = match e { Ev::Swap { .. } => "env:swap", Ev::Loan { .. } => "env:loan", Ev::Stray { .. } => "env:stray_transfer_to_distributor", Ev::Fee { .. } => "fee", Ev::Config { .. } => "config", Ev::Collect { .. } => "collect",
                              Ev::Aggregate { .. } => "aggregate", Ev::ForwardDirect { .. } => "forward_direct", Ev::NewEpoch { .. } => "new_epoch" };
         out.count(&format!("{}:{}", kind, if ok { "ok" } else { "rejected" }));
         // ---- the property's predicates on the implementation
         out.monitor_evals += 1;
         // conservation over {pairs, vaults, router, collector, DAO, distributor}: the pipeline entry points only move funds between them
-        if !matches!(e, Ev::Swap { .. } | Ev::Loan { .. } | Ev::Fee { .. }) {
+        if !matches!(e, Ev::Swap { .. } | Ev::Loan { .. } | Ev::Fee { .. } | Ev::Stray { .. }) {
             for a in 0..4 {
                 let tot = |s: &Snap| s.others.iter().map(|o| o[a]).sum::<u128>() + s.coll[a] + if a == 0 { s.dao + s.dist } else { 0 };
                 if tot(&before) != tot(&after) { out.monitor_fail("C10", &format!("{} is not conserved across pools, vaults, router, collector, DAO and distributor ({} -> {})", A[a], tot(&before), tot(&after)), replay.clone()); }
@@ -340,7 +350,9 @@ fn gen_history(out: &mut Out, rng: &mut Rng) {
             0..=5 => { let pair = rng.below(3) as usize; let l = setup.liquidity[pair].0;
                        Ev::Swap { who: 1 + rng.below(3) as usize, pair, offer_first: rng.chance(1, 2), amount: match rng.below(4) { 0 => 1 + rng.below128(2_000), 1 => l / 3, _ => 1 + rng.below128(l / 10 + 1) } } }
             6 | 7 => Ev::Loan { vault: rng.below(3) as usize, amount: *rng.pick(&[10_000u128, 90_000, 150_000, 5_000_000, 900_000_000]) },
-            8..=10 => Ev::Fee { asset: rng.below(4) as usize, amount: match rng.below(12) { 0 | 1 => 1 + rng.below128(999), 2 => 1_000, 3 | 4 => 1_001, 5 => 1_000_000_000_000_000, 6 => magnitude(rng, 40), _ => 1_001 + rng.below128(200_000) } },
+            8..=10 if rng.chance(1, 8) => Ev::Stray { amount: match rng.below(3) { 0 => 1, 1 => 1_000_000, _ => 1 + rng.below128(5_000_000_000) } },
+            8..=10 => Ev::Fee { asset: rng.below(4) as usize, amount: match rng.below(14) { 0 | 1 => 1 + rng.below128(999), 2 => 1_000, 3 | 4 => 1_001, 5 => 1_000_000_000_000_000, 6 => magnitude(rng, 40),
+                                                                                       12 => 1_000_000_000_000_000_000_000 + rng.below128(1_000_000), 13 => 1_000_000_000_000_000_000_000_000_000, _ => 1_001 + rng.below128(200_000) } },
             11 => Ev::Config { admin: !rng.chance(1, 5), active: if rng.chance(1, 2) { Some(rng.chance(3, 4)) } else { None },
                                rate: if rng.chance(2, 3) { Some(gen_rate(rng)) } else { None }, dao: if rng.chance(1, 3) { Some(true) } else { None } },
             12 => Ev::Collect { who: rng.below(4) as usize, vaults: rng.chance(1, 2) },
@@ -401,6 +413,7 @@ pub fn run(args: &Args) {
                 plain transfers to the collector {<1000, 1000, 1001, huge}, take-rate changes {off, 0, 1e-18, 1%, 33%, 0.999.., >= 1 (rejected)}, public CollectFees / AggregateFees / ForwardFees, \
                 and NewEpoch (early ones included) until grace+1.. epochs exist; non-trivial = >= 2 epochs created, >= 1 asset swapped away, >= 1 asset left in the collector, >= 1 take-rate payment; \
                 distinct = by hash of the model input".into();
+    if let Some(p) = &args.replay { if replay_kind(p) == "distribution_asset_change" { replay_probe(&mut out, &mut |o| distribution_asset_change_probe(o)); } }
     let mut rng = Rng::new(args.seed);
     corpus(&mut out);
     distribution_asset_change_probe(&mut out);
